@@ -71,7 +71,7 @@ def gen_url(r: random.Random):
     pk = r.choice(["none", "none", "default", "other", "empty", "cross"])
     dflt = {"http": 80, "https": 443, "ws": 80, "wss": 443}[shape["scheme"]]
     cross = r.choice([p_ for p_ in (21, 80, 443, 1080) if p_ != dflt])  # another scheme's default port
-    port = {"none": "", "default": f":{dflt}", "other": f":{r.choice([1, 81, 8080, 8443, 65535, dflt + 1])}",
+    port = {"none": "", "default": f":{dflt}", "other": f":{r.choice([0, 1, 81, 8080, 8443, 65535, dflt + 1])}",
             "empty": ":", "cross": f":{cross}"}[pk]
     shape["port"] = pk
     nseg = r.randint(0, 4)
@@ -162,13 +162,13 @@ def run_case(case):
         # origin law
         cnt["law_origin"] += 1
         o = u.origin
-        eff = exp[2] or DEFAULT[exp[0]]
+        eff = DEFAULT[exp[0]] if exp[2] is None else exp[2]
         if (o.scheme, o.host, o.port) != (exp[0], exp[1], eff):
             v("origin-mismatch", f"origin of {s!r} is {o.scheme, o.host, o.port}, expected {(exp[0], exp[1], eff)}",
               {"url": s})
         if prev is not None:
             po, pexp = prev
-            same = (pexp[0], pexp[1], pexp[2] or DEFAULT[pexp[0]]) == (exp[0], exp[1], eff)
+            same = (pexp[0], pexp[1], DEFAULT[pexp[0]] if pexp[2] is None else pexp[2]) == (exp[0], exp[1], eff)
             if (po == o) != same:
                 v("origin-equality", f"origin equality {po == o} but component equality {same}", {"url": s})
         # a sibling differing in exactly one component must not be equal; same with explicit default port must
@@ -299,7 +299,7 @@ def wire_headers(u, headers, route):
     net = simnet.Net()
     net.log_events = False
     host = u.host.decode("ascii")
-    port = u.port or 80
+    port = 80 if u.port is None else u.port
     origin = endpoints.Origin(net, host, port, register=route == "direct")
     if route == "forward":
         px = endpoints.HTTPProxy(net, "proxy.test", 3128, origins=[origin])
